@@ -3828,6 +3828,16 @@ XPath::findAttributes(
                     XalanNode* const    theNode = attributeList->item(j);
                     assert(theNode != 0 && theNode->getNodeType() == XalanNode::ATTRIBUTE_NODE);
 
+                    // Namespace declarations are not attribute nodes in
+                    // the XPath data model, whatever the node test is.
+                    const XalanDOMString&   theNodeName = theNode->getNodeName();
+
+                    if (startsWith(theNodeName, DOMServices::s_XMLNamespaceWithSeparator) == true ||
+                        theNodeName == DOMServices::s_XMLNamespace)
+                    {
+                        continue;
+                    }
+
                     const eMatchScore   score =
                         theTester(*theNode, XalanNode::ATTRIBUTE_NODE);
 
